@@ -6,6 +6,13 @@ VERIF = os.path.dirname(os.path.dirname(os.path.abspath(__file__)))
 
 # id -> (category, technique, text, note, design_ref)
 CHECKS = {
+    "C01": ("fault_enumeration",
+            "runtime monitoring: exhaustive content-damage enumeration (every bit flip / truncation of small files) against every checked retrieval, byte-equality oracle",
+            "Every single-bit flip and truncation of small content files, boundary damage of large ones, swap/symlink/replacement, "
+            "against read, read_hash, Reader (7 buffer patterns), copy, hard_link, reflink (also with emulated FICLONE) in every "
+            "mode; the monitor flags any Ok whose delivered bytes differ from the stored ones.",
+            "Damage is applied between calls. FICLONE is emulated by the ptrace supervisor (no CoW filesystem available).",
+            "DESIGN.md §5 C01"),
     "C02": ("exploration",
             "runtime monitoring: reference-digest + read-back oracle over generated writes in 3-4 execution modes; sanitizer replays in thorough",
             "Every write entry point (one-shot, streamed, keyed, by address, declared/undeclared size) is driven "
@@ -15,6 +22,72 @@ CHECKS = {
             "Trusts hashlib, the tmpfs/ext4 kernel implementation and the cdrv driver's faithful transcription of "
             "results. xxh3 is checked for determinism/read-back only.",
             "DESIGN.md §5 C02"),
+    "C05": ("exploration",
+            "runtime monitoring: bounded-exhaustive and random operation histories judged step by step by a sequential reference model",
+            "All histories up to length 3 (quick) / 4 (thorough) over {write x3 shapes, remove} x 2 keys, plus seeded long "
+            "histories over 8 keys with foreign records and mixed sync/async modes; after every step every key's lookup and "
+            "read is compared with the model.",
+            "Sequential use only (concurrency is C07). Model written from the property statement.",
+            "DESIGN.md §5 C05"),
+    "C06": ("fault_enumeration",
+            "runtime monitoring: exhaustive record cuts and bit flips of bucket files + random structural damage; analytic and reference-parser oracles, phantom check, sync/async agreement",
+            "Each record cut at every byte length, every single-bit flip of small buckets, overwrites incl. invalid UTF-8, inserted "
+            "garbage lines, duplicated/moved fragments, followed by appends through the API; lookups in sync and both async "
+            "runtimes and the listing are compared with what the undamaged records imply.",
+            "Lines that only validate after stripping one CR are accepted either way. Malformed integrity strings are outside the property.",
+            "DESIGN.md §5 C06"),
+    "C08": ("exploration",
+            "runtime monitoring: generated commits with declared size/integrity classes; error-variant and before/after lookup oracle",
+            "Commits with declared sizes {len-1,len,len+1,0,2len,1MiB+-1} and integrity classes {correct, wrong, other algorithm, "
+            "multi-hash} over chunkings, both sides of the mmap threshold, prior key states, keyed/by-address, all modes; the "
+            "monitor compares error variants, SizeMismatch numbers and metadata/read before and after.",
+            "A declared integrity without a hash of the writer's algorithm is an open outcome.",
+            "DESIGN.md §5 C08"),
+    "C09": ("exploration",
+            "runtime monitoring: model-based random histories with full-state comparison after every removal",
+            "Random histories mixing writes with remove / remove_hash / remove_fully / clear (sync and async); after every removal "
+            "every key and address ever used and the listing are compared with the sequential model.",
+            "Open outcomes (remove_fully of absent key etc.) accept Err with unchanged state.",
+            "DESIGN.md §5 C09"),
+    "C10": ("exploration",
+            "runtime monitoring: generated histories; listing compared as a multiset with the model and with per-key lookup",
+            "Histories with many records per bucket, tombstones in all positions, re-insertion, up to 300 keys; list_sync compared with "
+            "the model and item-by-item with metadata_sync.",
+            "An Err item for an absent index directory counts as the empty listing.",
+            "DESIGN.md §5 C10"),
+    "C11": ("exploration",
+            "runtime monitoring: generated entries (128-bit times, recursive JSON, raw bytes) compared field by field after round trip; default-time window monitor",
+            "Every write entry point and mode with generated keys, 0..2^128-1 timestamps, nested JSON, raw metadata, declared sizes; "
+            "read back through metadata*, list_sync and index::find*; defaults checked against the commit's wall-clock window.",
+            "JSON numbers limited to i64/u64 and short decimals as the property states. Known finding: nesting >= 127.",
+            "DESIGN.md §5 C11"),
+    "C14": ("exploration",
+            "runtime monitoring: abandonment-point enumeration with before/after lookup comparison and temp-area census at quiescence",
+            "Writers dropped after open / k chunks / with a blocking write in flight / after flush / after close, and commits rejected "
+            "by size or integrity, on both sides of the mmap threshold; listing+lookups compared before/after, temp area "
+            "censused once the driver reports quiescence.",
+            "A temp file present after 10 s + 3 re-polls is treated as leaked.",
+            "DESIGN.md §5 C14"),
+    "C16": ("exploration",
+            "runtime monitoring: content-area census (path, bytes, inode) after every write of duplicate data across algorithms/entry points/modes; hashlib oracle",
+            "Histories re-writing equal data under the same/other keys, by address, via all entry points, modes and the five "
+            "algorithms; after every write the content area must be exactly the expected set of digest-named files; damaging "
+            "one algorithm's copy must not affect the others.",
+            "xxh3 checked for determinism only.",
+            "DESIGN.md §5 C16"),
+    "C17": ("exploration",
+            "runtime monitoring: differential execution against an independent Python implementation of the on-disk format, both directions, plus byte-level grammar and path census",
+            "Library-written caches are decoded by cv.ref (path census, record grammar, lookups, content) and reference-written "
+            "caches (4 JSON spellings) are read by the library in every mode.",
+            "cv.ref was written from the format description; xxh3 only library->reference.",
+            "DESIGN.md §5 C17"),
+    "C18": ("fault_enumeration",
+            "runtime monitoring: extraction entry points x content states (pristine / damage classes / missing / key absent) x destination states; destination inspected after every call",
+            "All 18 extraction functions (+ reflink with emulated FICLONE) over sizes around buffer boundaries, content pristine / "
+            "damaged / missing, key absent, destination absent / pre-seeded with marker bytes; result class, byte count and the "
+            "destination's bytes are judged.",
+            "FICLONE emulated; C01 enumerates damage positions exhaustively, C18 takes one representative per class.",
+            "DESIGN.md §5 C18"),
 }
 
 NOT_YET = {
